@@ -41,7 +41,192 @@ type Program struct {
 	inlinedOf  map[*ssa.Function]*ssa.Function   // clone -> original
 	regionOf   map[*ssa.Function][]*ssa.Function // functions expanded into the clone
 	inlRegions map[*ssa.Function][]*InlRegion
+
+	globalRx map[*ssa.Global]string // unexported package-level regexps of the module, by pattern
 }
+
+// GlobalRegexp returns the pattern of an unexported package-level variable of the module that
+// holds a compiled regular expression: it must be written exactly once, by its initialiser,
+// with regexp.MustCompile/Compile of a constant. Such variables are named by their pattern in
+// canonical forms (their identifier is private and may be renamed freely).
+func (p *Program) GlobalRegexp(g *ssa.Global) (string, bool) {
+	s, ok := p.GlobalConst(g)
+	if ok && strings.HasPrefix(s, "rx‹") {
+		return strings.TrimSuffix(strings.TrimPrefix(s, "rx‹"), "›"), true
+	}
+	return "", false
+}
+
+// GlobalConst renders an unexported package-level variable of the module by its content when
+// the content is fixed: the variable is stored exactly once, by its initialiser, with a compiled
+// constant regular expression (rx‹pattern›), a map literal with constant keys and values
+// (set‹..› when all values are struct{}{} or true, map‹k:v,..› otherwise, keys sorted) or a
+// slice/array literal of constants (list‹..›), and no module code writes through the variable.
+// The identifier of such a table is private and may be renamed freely; its content is what the
+// properties depend on.
+func (p *Program) GlobalConst(g *ssa.Global) (string, bool) {
+	if p.globalRx == nil {
+		p.globalRx = map[*ssa.Global]string{}
+		stores := map[*ssa.Global][]*ssa.Store{}
+		mutated := map[*ssa.Global]bool{}
+		for fn := range p.AllFunctions() {
+			if !IsModPkg(FnPkgPath(fn)) {
+				continue
+			}
+			for _, b := range fn.Blocks {
+				for _, in := range b.Instrs {
+					switch x := in.(type) {
+					case *ssa.Store:
+						if gl, ok := x.Addr.(*ssa.Global); ok {
+							stores[gl] = append(stores[gl], x)
+						}
+					case *ssa.UnOp:
+						gl, ok := x.X.(*ssa.Global)
+						if !ok || x.Op != token.MUL || x.Referrers() == nil {
+							continue
+						}
+						for _, ref := range *x.Referrers() {
+							switch y := ref.(type) {
+							case *ssa.MapUpdate:
+								if y.Map == ssa.Value(x) {
+									mutated[gl] = true
+								}
+							case *ssa.IndexAddr:
+								if y.Referrers() != nil {
+									for _, r2 := range *y.Referrers() {
+										if st, ok := r2.(*ssa.Store); ok && st.Addr == ssa.Value(y) {
+											mutated[gl] = true
+										}
+									}
+								}
+							}
+						}
+					}
+				}
+			}
+		}
+		constOf := func(v ssa.Value) (string, bool) {
+			if c, ok := v.(*ssa.Const); ok {
+				if c.Value == nil {
+					return "zero", true
+				}
+				return c.Value.ExactString(), true
+			}
+			return "", false
+		}
+		for gl, sts := range stores {
+			if len(sts) != 1 || mutated[gl] || gl.Object() == nil || gl.Object().Exported() || sts[0].Parent().Name() != "init" {
+				continue
+			}
+			v := sts[0].Val
+			if ex, ok := v.(*ssa.Extract); ok {
+				v = ex.Tuple
+			}
+			switch x := v.(type) {
+			case *ssa.Call:
+				if len(x.Call.Args) == 1 && IsCallTo(x, "regexp.MustCompile", "regexp.Compile") {
+					if pat, ok := ConstString(x.Call.Args[0]); ok {
+						p.globalRx[gl] = RxName(pat)
+					}
+				}
+			case *ssa.MakeMap:
+				if x.Referrers() == nil {
+					continue
+				}
+				var ents []string
+				ok, allUnit := true, true
+				for _, ref := range *x.Referrers() {
+					switch y := ref.(type) {
+					case *ssa.MapUpdate:
+						k, ok1 := constOf(y.Key)
+						val, ok2 := constOf(y.Value)
+						if !ok1 || !ok2 {
+							ok = false
+							continue
+						}
+						if val != "zero" && val != "true" {
+							allUnit = false
+						}
+						ents = append(ents, k+"\x00"+val)
+					case *ssa.Store:
+						if y != sts[0] {
+							ok = false
+						}
+					case *ssa.DebugRef:
+					default:
+						ok = false
+					}
+				}
+				if !ok {
+					continue
+				}
+				sort.Strings(ents)
+				for i, e := range ents {
+					kv := strings.SplitN(e, "\x00", 2)
+					if allUnit {
+						ents[i] = kv[0]
+					} else {
+						ents[i] = kv[0] + ":" + kv[1]
+					}
+				}
+				name := "map"
+				if allUnit {
+					name = "set"
+				}
+				p.globalRx[gl] = name + "‹" + strings.Join(ents, ",") + "›"
+			case *ssa.Slice:
+				al, isAl := x.X.(*ssa.Alloc)
+				if !isAl || x.Low != nil || x.High != nil || al.Referrers() == nil {
+					continue
+				}
+				arr, isArr := al.Type().(*types.Pointer).Elem().Underlying().(*types.Array)
+				if !isArr {
+					continue
+				}
+				elems := make([]string, arr.Len())
+				ok := true
+				for _, ref := range *al.Referrers() {
+					switch y := ref.(type) {
+					case *ssa.IndexAddr:
+						idx, isC := ConstInt(y.Index)
+						if !isC || idx < 0 || idx >= arr.Len() || y.Referrers() == nil {
+							ok = false
+							continue
+						}
+						for _, r2 := range *y.Referrers() {
+							st, isSt := r2.(*ssa.Store)
+							if !isSt || st.Addr != ssa.Value(y) {
+								ok = false
+								continue
+							}
+							if s, isC := constOf(st.Val); isC {
+								elems[idx] = s
+							} else {
+								ok = false
+							}
+						}
+					case *ssa.Slice, *ssa.DebugRef:
+					default:
+						ok = false
+					}
+				}
+				for _, e := range elems {
+					if e == "" {
+						ok = false
+					}
+				}
+				if ok {
+					p.globalRx[gl] = "list‹" + strings.Join(elems, ",") + "›"
+				}
+			}
+		}
+	}
+	s, ok := p.globalRx[g]
+	return s, ok
+}
+
+// RxName is the canonical rendering of a private package-level regexp with the given pattern.
+func RxName(pattern string) string { return "rx‹" + pattern + "›" }
 
 // Load type-checks ./... in repoDir (tests excluded) and builds SSA for the whole program.
 func Load(repoDir string) (*Program, error) {
